@@ -616,7 +616,13 @@ def check(run, only=None):
                 s2 = rng.randint(s1 + 1, nv - 1)
                 ys = [xs[0], xs[1 % len(xs)], xs[2 % len(xs)]]
                 inst["retarget_plan"] = (s1, s2, ys)
-                inst["retarget"] = Job(build(cls, args, param, E("PRef", E("PConstant", ys[0])), item), nv, seed,
+                # the reference may itself point at a reference (chains of depth 1..3): the INNERMOST one is re-targeted
+                # (the driver re-targets the PRef that was constructed first), and the effect must show from the next step
+                chain = E("PRef", E("PConstant", ys[0]))
+                for _ in range(t % 3):
+                    chain = E("PRef", chain)
+                inst["retarget_chain_depth"] = 1 + (t % 3)
+                inst["retarget"] = Job(build(cls, args, param, chain, item), nv, seed,
                                        retarget=[[s1, to_json(E("PConstant", ys[1]))], [s2, to_json(E("PSequence", [ys[2]]))]])
                 insts.append(inst)
         jobs = []
@@ -757,6 +763,7 @@ def check(run, only=None):
             if rr is not None:
                 run.count()
                 run.dist("form.retarget")
+                run.dist("form.retarget.chain-depth-%d" % inst.get("retarget_chain_depth", 1))
                 k = first_diff(rr.obs, rj.obs)
                 if first_diff(inst["x1"].obs, rj.obs) is not None:
                     run.nontrivial("retarget " + to_source(rj.expr) + repr(inst["retarget_plan"][:2]))
